@@ -92,7 +92,7 @@ def main(argv=None) -> int:
                 return 1
             print("replay: none of the recorded findings reproduces on the current tree")
             return 0
-        code, _, _ = run_property(args.property, args.tier, args.repo)
+        code, _, _ = run_property(args.property, args.tier, args.repo, write=not os.environ.get("FLOXSA_NOWRITE"))
         return code
     except AnalysisError as e:
         print(f"ANALYSIS-ERROR property={args.property}: {e}")
